@@ -229,6 +229,42 @@ def full_unit(repo, cs):
     return unit
 
 
+def import_unit(repo, cs, own_axioms):
+    """import_module(module): the module is appended to the list the gamma phase walks -- whatever the module itself declares (own_axioms:
+    the imported module has / has no axioms of its own) --, the importing module's axioms and claims stay as they are, the module is returned."""
+    def unit(ctx):
+        pcls = repo.cls(PMOD, 'ProofExp')
+        contracts = dict(cs)
+
+        class Quiet:
+            def apply(self, interp, c, args, kwargs):
+                return None
+
+        class Notations:
+            def apply(self, interp, c, args, kwargs):
+                return []
+        contracts['ProofExp.add_notations'] = Quiet()
+        contracts['ProofExp.add_notation'] = Quiet()
+        contracts['ProofExp.get_notations'] = Notations()
+        earlier = Obj(pcls, {})
+        ax = [ctx.input('ppat', 'axiom0')] if own_axioms else []
+        sub = Obj(pcls, {'_axioms': ax, '_claims': [], '_submodules': [], '_notations': [], '_proof_expressions': []})
+        mine_ax, mine_cl, subs = [ctx.input('ppat', 'own axiom')], [ctx.input('ppat', 'own claim')], [earlier]
+        me = Obj(pcls, {'_axioms': mine_ax, '_claims': mine_cl, '_submodules': subs, '_notations': [], '_proof_expressions': []})
+        interp = Interp(repo, ctx, contracts)
+        ctx.cover('call')
+        r = interp.run_function(pcls.find_method('import_module'), [me, sub])
+        now = me.attrs['_submodules']
+        ok = isinstance(now, list) and len(now) == 2 and now[0] is earlier and now[1] is sub
+        ctx.oblige('post:the imported module is appended to the submodules, after the earlier ones', z3.BoolVal(bool(ok)), kind='post', got=repr(now))
+        same = me.attrs['_axioms'] is mine_ax and len(mine_ax) == 1 and me.attrs['_claims'] is mine_cl and len(mine_cl) == 1 and sub.attrs['_axioms'] is ax \
+            and len(ax) == (1 if own_axioms else 0) and sub.attrs['_submodules'] == []
+        ctx.oblige('frame:axioms and claims of both modules are untouched', z3.BoolVal(bool(same)), kind='frame')
+        ctx.oblige('post:returns the imported module', z3.BoolVal(r is sub), kind='post')
+        return None
+    return unit
+
+
 # ---- (B) Interpreter.pattern ---------------------------------------------------------------------------------------------------------------
 def tracker_of(o):
     return o.attrs['sub_interpreter'] if 'sub_interpreter' in o.attrs else o
@@ -539,19 +575,83 @@ def _pat(rng, d=2):
     if k == 5: return App(_pat(rng, d - 1), _pat(rng, d - 1))
     return Exists(rng.randint(0, 2), _pat(rng, d - 1))
 
+class _Buf(io.BytesIO):
+    def close(self):
+        pass                                     # the interpreter closes a stream when it leaves its phase; the bytes are read afterwards
+
+def _rep(rng):
+    # a pattern with a large sub-term used several times: a candidate for Save / Load under optimisation
+    t = App(App(Symbol('s%d' % rng.randint(0, 3)), _pat(rng, 1)), _pat(rng, 1))
+    return rng.choice([Implies(t, t), Implies(t, App(t, _pat(rng, 1))), App(Implies(t, _pat(rng, 1)), t)])
+
 def _module(rng, depth):
-    axs = [_pat(rng) for _ in range(rng.randint(0, 3))]
+    axs = [(_rep(rng) if rng.random() < 0.4 else _pat(rng)) for _ in range(rng.randint(0, 3))]
     if axs and rng.random() < 0.3:
         axs.append(axs[0])                       # the same axiom declared twice (also arises from diamond imports)
     m = ProofExp(axioms=axs, claims=[])
+    m._declared_imports = []                     # the import graph as DECLARED, kept apart from the module's own bookkeeping
     if depth > 0:
         for _ in range(rng.randint(0, 2)):
-            m._submodules.append(_module(rng, depth - 1))
+            sub = _module(rng, depth - 1)
+            m._declared_imports.append(sub)
+            m.import_module(sub)                 # a module without axioms of its own may still import modules that have some
     return m
+
+def _ref_run(data, phase, memory, published):
+    # independent reading of an emitted file, as the checker reads it: ONE memory for all files, Publish pops the stack
+    stack, i = [], 0
+    def arg():
+        nonlocal i
+        v = data[i]; i += 1
+        return v
+    while i < len(data):
+        ins = arg()
+        if ins == 0x02: stack.append(('EVar', arg()))
+        elif ins == 0x03: stack.append(('SVar', arg()))
+        elif ins == 0x04: stack.append(('Symbol', arg()))
+        elif ins in (0x05, 0x06):
+            r = stack.pop(); l = stack.pop(); stack.append(('Implies' if ins == 0x05 else 'App', l, r))
+        elif ins in (0x07, 0x08):
+            v = arg(); stack.append(('Mu' if ins == 0x07 else 'Exists', v, stack.pop()))
+        elif ins == 0x89: stack.append(('MetaVar', arg(), (), (), (), (), ()))
+        elif ins == 0x09:
+            name = arg(); ls = []
+            for _ in range(5):
+                k = arg(); ls.append(tuple(arg() for _ in range(k)))
+            stack.append(('MetaVar', name) + tuple(ls))
+        elif ins in (0x0A, 0x0B):
+            v = arg(); plug = stack.pop(); pat = stack.pop(); stack.append(('ESubst' if ins == 0x0A else 'SSubst', pat, v, plug))
+        elif ins == 0x1B: stack.pop()
+        elif ins == 0x1C: memory.append(('pattern', stack[-1]))
+        elif ins == 0x1D:
+            kind, v = memory[arg()]
+            if kind != 'pattern': raise ValueError('Load of a proved entry in the %s file' % phase)
+            stack.append(v)
+        elif ins == 0x1E:
+            p = stack.pop(); published.append(p)
+            if phase == 'gamma': memory.append(('proved', p))
+        else:
+            raise ValueError('instruction %#x in the %s file' % (ins, phase))
+
+def _same(p, got, fwd, bwd):
+    # declared pattern == decoded term under an injective symbol numbering built on the way
+    cn = type(p).__name__
+    if cn == 'Instantiate': return _same(p.simplify(), got, fwd, bwd)
+    if got[0] != cn: return False
+    if cn == 'Symbol':
+        return fwd.setdefault(p.name, got[1]) == got[1] and bwd.setdefault(got[1], p.name) == p.name
+    if cn in ('EVar', 'SVar'): return got[1] == p.name
+    if cn in ('Implies', 'App'): return _same(p.left, got[1], fwd, bwd) and _same(p.right, got[2], fwd, bwd)
+    if cn in ('Exists', 'Mu'): return got[1] == p.var and _same(p.subpattern, got[2], fwd, bwd)
+    if cn == 'MetaVar':
+        return got[1:] == (p.name, tuple(v.name for v in p.e_fresh), tuple(v.name for v in p.s_fresh), tuple(v.name for v in p.positive), tuple(v.name for v in p.negative),
+                           tuple(v.name for v in p.app_ctx_holes))
+    if cn in ('ESubst', 'SSubst'): return got[2] == p.var.name and _same(p.pattern, got[1], fwd, bwd) and _same(p.plug, got[3], fwd, bwd)
+    return False
 
 def _declared(m):
     out = []
-    for s in m._submodules: out += _declared(s)
+    for s in m._declared_imports: out += _declared(s)
     return out + list(m._axioms)
 
 def _c03_modules(seed, n):
@@ -560,13 +660,14 @@ def _c03_modules(seed, n):
         m = _module(rng, rng.randint(0, 3))
         claims = []
         for _ in range(rng.randint(0, 3)):
-            c = _pat(rng)
+            c = _rep(rng) if rng.random() < 0.4 else _pat(rng)
             if c not in claims: claims.append(c)
         m._claims = claims
         want = [('axiom', a) for a in _declared(m)] + [('claim', c) for c in reversed(claims)]
         for optimize in (False, True):
             cl = [Claim(c) for c in claims]
-            r = _Rec(ExecutionPhase.Gamma, io.BytesIO(), cl, io.BytesIO(), io.BytesIO())
+            g_out, c_out = _Buf(), _Buf()
+            r = _Rec(ExecutionPhase.Gamma, g_out, cl, c_out, _Buf())
             try:
                 if optimize:
                     an = CountingInterpreter(ExecutionPhase.Gamma, cl)
@@ -581,9 +682,19 @@ def _c03_modules(seed, n):
             held = [t for t in r.memory[:n_ax]]
             if [getattr(t, 'conclusion', None) for t in held] != [p for k, p in r.journal if k == 'axiom'] and not optimize:
                 return ('fail', 'after the gamma phase the tracker memory is %r, the machine holds one entry per published axiom: %r' % (held, [p for k, p in r.journal if k == 'axiom']),
-                        repr([len(s._submodules) for s in m._submodules]), repr(claims), optimize, case)
+                        repr([len(s._declared_imports) for s in m._declared_imports]), repr(claims), optimize, case)
             if r.journal != want:
-                return ('fail', 'published %r, declared %r' % (r.journal, want), repr([len(s._submodules) for s in m._submodules]), repr(claims), optimize, case)
+                return ('fail', 'published %r, declared %r' % (r.journal, want), repr([len(s._declared_imports) for s in m._declared_imports]), repr(claims), optimize, case)
+            # the publish journal of an independent reading of the EMITTED gamma and claim files
+            mem, pa, pc = [], [], []
+            try:
+                _ref_run(g_out.getvalue(), 'gamma', mem, pa); _ref_run(c_out.getvalue(), 'claim', mem, pc)
+            except (ValueError, IndexError) as e:
+                return ('fail', 'the emitted files cannot be read back: %s' % e, repr(_declared(m)), repr(claims), optimize, case)
+            fwd, bwd = {}, {}
+            decl = _declared(m) + list(reversed(claims))
+            if len(pa) != len(_declared(m)) or len(pc) != len(claims) or not all(_same(p, g, fwd, bwd) for p, g in zip(decl, pa + pc)):
+                return ('fail', 'the emitted files publish axioms %r and claims %r; declared: %r and %r' % (pa, pc, _declared(m), list(reversed(claims))), repr(_declared(m)), repr(claims), optimize, case)
     return ('ok', n)
 
 def _c03_symbols(seed, n):
